@@ -93,6 +93,21 @@ def main():
             print('    caught by %s: %s' % (q, detail))
         if not confirm_only and not r.get('caught_by') and 'error' not in r:
             print('    NOT CAUGHT')
+    if '--write' in args and not confirm_only:
+        lines = ['# Seeded property-breaking changes and the checks that catch them', '',
+                 'Regenerate with `tools/seedtest.py --write` (quick tier, VERIF_SEED default).', '',
+                 '| seed | property | what the change does | needs to manifest | repo tests | demo without / with | caught by |',
+                 '|---|---|---|---|---|---|---|']
+        for r in results:
+            meta = json.load(open(os.path.join(SEEDED, r['name'], 'meta.json')))
+            caught = '; '.join('%s (%s)' % (q, d.split('|')[0].replace('facet=', '').strip()[:90])
+                               for q, d in r.get('caught_by', [])) or '**not caught**'
+            lines.append('| %s | %s | %s | %s | %s | %s / %s | %s |' % (
+                r['name'], r['property'], str(meta.get('summary', '')).replace('|', '/').replace('\n', ' ')[:260],
+                str(meta.get('needs_to_manifest', '')).replace('|', '/').replace('\n', ' ')[:260],
+                r.get('tests'), r.get('demo_without'), r.get('demo_with'), caught))
+        with open(os.path.join(SEEDED, 'RESULTS.md'), 'w') as f:
+            f.write('\n'.join(lines) + '\n')
     return 0
 
 
